@@ -436,9 +436,7 @@ where
         #[cfg(transparencies_stretto_verif)]
         crate::verif::yield_point("clear.after_signal");
         #[cfg(transparencies_stretto_verif)]
-        crate::verif::yield_point("clear.after_policy_clear");
-        #[cfg(transparencies_stretto_verif)]
-        crate::verif::yield_point("clear.after_store_clear");
+        crate::verif::yield_point("clear.wait_ack");
         // A disconnected acknowledgement means the processor is gone (the cache is closing).
         let _ = ack_rx.recv();
 
@@ -685,8 +683,14 @@ where
         // discard what is buffered, then clear: nothing inserted before the clear() call
         // survives it, and nothing is left half applied.
         let res = CacheCleaner::new(self).clean();
+        #[cfg(transparencies_stretto_verif)]
+        crate::verif::yield_point("proc.clear.after_drain");
         self.policy.clear();
+        #[cfg(transparencies_stretto_verif)]
+        crate::verif::yield_point("proc.clear.after_policy_clear");
         self.store.clear();
+        #[cfg(transparencies_stretto_verif)]
+        crate::verif::yield_point("proc.clear.after_store_clear");
         self.metrics.clear();
         res
     }
@@ -866,7 +870,11 @@ where
     /// the `recv(clear_rx)` arm; `None` if no clear signal is queued
     pub fn step_clear(&mut self) -> Option<Result<(), CacheError>> {
         match self.processor.clear_rx.try_recv() {
-            Ok(_) => Some(self.processor.handle_clear_event()),
+            Ok(ack) => {
+                let res = self.processor.handle_clear_event();
+                let _ = ack.send(());
+                Some(res)
+            }
             Err(_) => None,
         }
     }
